@@ -234,6 +234,10 @@ def run_file_base(seed_i, tier, part):
         allf = decfam.plan_message_faults(dict(base, hex_bitmap=False), rec, rd, "quick", rng, directed=False)
         for fl in rng.sample(allf, min(len(allf), 12 if tier == "quick" else 60)):
             rec_plans.append([{"record": k + 1, "faults": fl}])
+        if k < 2:
+            # data-derived text reaches the error messages the tools print: always include these
+            for fl in list(faults.pds_header_faults(rd.spans, base["encoding"]))[:7]:
+                rec_plans.append([{"record": k + 1, "faults": fl}])
     idx = 0
     hangs = 0
     for fl in plans:
